@@ -175,6 +175,14 @@ func c03Readmsg(r *Run, rm *ssa.Function) {
 	rdParam := rm.Params[0]
 	fulls := findCalls(rm, "io.ReadFull")
 	copys := findCalls(rm, "io.CopyN")
+	if len(copys) == 0 {
+		// the discard moved into a helper: a call of a module function that wraps io.CopyN
+		for _, g := range r.P.withHelpers(rm, 1)[1:] {
+			if len(findCalls(g, "io.CopyN")) == 1 {
+				copys = append(copys, findCalls(rm, fnName(g))...)
+			}
+		}
+	}
 	hdr, wireLin, problem := c03HeaderRead(r, fa, rm, rdParam)
 	if hdr == nil {
 		if problem != "" {
@@ -201,6 +209,9 @@ func c03Readmsg(r *Run, rm *ssa.Function) {
 		return
 	}
 	full, cp := fulls[0], copys[0]
+	// the discard step: io.CopyN(Discard, rd, count) in readmsg itself, or a helper (rd, count) → (int(written), err)
+	// wrapping exactly that call
+	cpCount, cpRd, cpDiscardOK := discardStepArgs(cp)
 	r.Ok("frame-read", "readmsg: the 4-byte little-endian length prefix is read completely", hdr.Pos(), "wire length = "+wireLin.String())
 	body := wireLin.Sub(linConst(4)) // length counts itself
 
@@ -235,10 +246,10 @@ func c03Readmsg(r *Run, rm *ssa.Function) {
 		"the body read may consume bytes of the next frame: len(buf) <= length-4 is not established", factStrings(fFull)...)
 
 	// discard
-	cnt := fa.Lin(cp.Call.Args[2])
+	cnt := fa.Lin(cpCount)
 	want := body.Sub(bufLen)
 	r.Check(cnt.Equal(want), "discard", "readmsg: discard count == (length-4) - len(buf)", cp.Pos(), "discards "+cnt.String()+" bytes, expected "+want.String(), "count = "+cnt.String())
-	r.Check(cp.Call.Args[1] == rdParam && isDiscard(cp.Call.Args[0]), "discard", "readmsg: discard copies rd to io.Discard", cp.Pos(), "the remainder is not drained from rd into Discard")
+	r.Check(cpRd == rdParam && cpDiscardOK, "discard", "readmsg: discard copies rd to io.Discard", cp.Pos(), "the remainder is not drained from rd into Discard")
 	fcp := fa.FactsAt(cp, cnt)
 	r.Check(Entails(fcp, linConst(1).Sub(cnt)) && callSucceededAt(full, cp), "discard", "readmsg: discard runs only when length-4 > len(buf), after the body read", cp.Pos(),
 		"discard may run with a non-positive count or without a successful body read", factStrings(fcp)...)
@@ -522,4 +533,53 @@ func c03ReadFcall(r *Run, rf, rm *ssa.Function) {
 		r.Check(okp, "error-propagation", "ReadFcall: maybeTruncate error returned", mt.Pos(), "error dropped")
 	}
 	_ = fmt.Sprint
+}
+
+// discardStepArgs: for io.CopyN(dst, rd, n) the three roles; for a helper h(…rd…, …count…) whose body is exactly
+// `nn, err := io.CopyN(io.Discard, rd, int64(count)); return int(nn), err`, the call-site arguments in those roles.
+func discardStepArgs(c *ssa.Call) (count ssa.Value, rd ssa.Value, discardOK bool) {
+	if calleeName(&c.Call) == "io.CopyN" {
+		return c.Call.Args[2], c.Call.Args[1], isDiscard(c.Call.Args[0])
+	}
+	g := staticCallee(&c.Call)
+	if g == nil || g.Blocks == nil {
+		return nil, nil, false
+	}
+	inner := findCalls(g, "io.CopyN")
+	if len(inner) != 1 {
+		return nil, nil, false
+	}
+	ic := inner[0]
+	idx := func(v ssa.Value) int {
+		v = stripConv(v)
+		if cv, ok := v.(*ssa.Convert); ok {
+			v = cv.X
+		}
+		for i, prm := range g.Params {
+			if ssa.Value(prm) == v {
+				return i
+			}
+		}
+		return -1
+	}
+	ci, ri := idx(ic.Call.Args[2]), idx(ic.Call.Args[1])
+	if ci < 0 || ri < 0 || ci >= len(c.Call.Args) || ri >= len(c.Call.Args) {
+		return nil, nil, false
+	}
+	// the helper returns CopyN's own results
+	okRet := true
+	for _, ret := range returnsOf(g) {
+		if len(ret.Results) != 2 {
+			okRet = false
+			continue
+		}
+		v0 := stripConv(ret.Results[0])
+		if cv, ok := v0.(*ssa.Convert); ok {
+			v0 = cv.X
+		}
+		if v0 != resultN(ic, 0) || ret.Results[1] != resultN(ic, 1) {
+			okRet = false
+		}
+	}
+	return c.Call.Args[ci], c.Call.Args[ri], okRet && isDiscard(ic.Call.Args[0])
 }
